@@ -468,7 +468,18 @@ func (e *nilEngine) trueImpliesNonNil(rv ssa.Value, prm *ssa.Parameter, at *ssa.
 	switch x := rv.(type) {
 	case *ssa.Const:
 		bv, ok := constBool(x)
-		return ok && !bv
+		if ok && !bv {
+			return true
+		}
+		// `true` answered where the parameter is already known non-nil (after `if p == nil { return false }`)
+		if ok && at != nil {
+			for _, ce := range dominatingConds(at) {
+				if nonNilCond(ce, prm) {
+					return true
+				}
+			}
+		}
+		return false
 	case *ssa.BinOp:
 		if x.Op == token.NEQ && x.X == ssa.Value(prm) && isNilConst(x.Y) {
 			return true
